@@ -170,7 +170,8 @@ def _is_deprecated_wash_block(s: ast.stmt) -> bool:
 def label_twins(ctx) -> None:
     """Both copies of transfer attach the same label to the condensed history entry: the values the `label` argument of
     condense_log can take, with the conditions under which it takes them (tests on `label` and on the LVH counter), are the same
-    set for both devices."""
+    set for both devices. Only the tests that hold on an arm are compared: the path conditions are conjunctions of atoms, and
+    the negation of `n and label` of an `elif` arm is not one (the arm that is left over is the complement either way)."""
     rule = "C16.history-twins"
     devs = concrete_devices(ctx)
     sets = {}
@@ -200,7 +201,15 @@ def label_twins(ctx) -> None:
         def norm(t):
             # texts by their fixed parts (the counter printed into the note may be computed differently), names as they are
             if isinstance(t, ast.JoinedStr):
-                return "".join(p_.value if isinstance(p_, ast.Constant) else ("{label}" if isinstance(p_, ast.FormattedValue) and is_name(p_.value, "label") else "{}") for p_ in t.values)
+                def piece(p_):
+                    if isinstance(p_, ast.Constant):
+                        return str(p_.value)
+                    if isinstance(p_, ast.FormattedValue) and is_name(p_.value, "label"):
+                        return "{label}"
+                    if isinstance(p_, ast.FormattedValue) and isinstance(p_.value, ast.JoinedStr) and p_.format_spec is None and p_.conversion in (-1, 115):
+                        return norm(p_.value)  # a text put together first and then placed into the label
+                    return "{}"
+                return "".join(piece(p_) for p_ in t.values)
             if isinstance(t, (ast.Name, ast.Constant)):
                 return show(t)
             return type(t).__name__
@@ -208,7 +217,25 @@ def label_twins(ctx) -> None:
         def on_label(r_):
             return is_name(r_, "label") or (isinstance(r_, ast.Compare) and len(r_.ops) == 1 and is_name(r_.left, "label") and isinstance(r_.comparators[0], ast.Constant))
 
-        sets[dev.name] = frozenset((frozenset((show(r_), p_) for r_, p_ in cd if on_label(r_)), norm(v_)) for cd, v_ in alts)
+        def closure(cd):
+            # `if n and label: .. elif n: ..`: the second arm knows `not (n and label)` and `n`, hence `not label`
+            facts = [(r_, p_) for r_, p_ in cd]
+            for _round in range(3):
+                have = {(show(r_), p_) for r_, p_ in facts}
+                for r_, p_ in list(facts):
+                    if isinstance(r_, ast.UnaryOp) and isinstance(r_.op, ast.Not):
+                        new_ = [(r_.operand, not p_)]
+                    elif isinstance(r_, ast.BoolOp) and p_ == isinstance(r_.op, ast.And):
+                        new_ = [(x_, p_) for x_ in r_.values]
+                    elif isinstance(r_, ast.BoolOp):
+                        rest = [x_ for x_ in r_.values if (show(x_), not p_) not in have]
+                        new_ = [(rest[0], p_)] if len(rest) == 1 else []
+                    else:
+                        new_ = []
+                    facts += [x_ for x_ in new_ if (show(x_[0]), x_[1]) not in have]
+            return facts
+
+        sets[dev.name] = frozenset((frozenset((show(r_), p_) for r_, p_ in closure(cd) if on_label(r_) and p_), norm(v_)) for cd, v_ in alts)
     names = sorted(sets)
     if len(names) < 2:
         return
